@@ -335,6 +335,9 @@ Definition collapse_verdict (st : state2) (l : N) : option (bool * bool * Z) :=
 (* a cut splits faces: every face of the result carries the FaceAnchor of the face its old darts came from *)
 Definition face_anchors_follow (st st' : state2) : bool :=
   negb (has_kind (aks st) KFA) ||
+  (* a FaceAnchor left under a dart that is not a face id (swaps can do that) would be adopted by a new face:
+     the clause is claimed on states whose face anchors sit at face ids *)
+  negb (clean st KFace (DAttr KFA)) ||
   let old_mesh x := usable st x && negb (is_free2 (mem st) x) in
   forallb (fun d' =>
      match face_cycle st' d' with
